@@ -1551,7 +1551,7 @@ def shallow_parse_input_query(query_text, input_iterator, tables_registry, query
         query_context.join_map_impl.build()
         query_context.join_map = joiner_type(query_context.join_map_impl)
 
-    query_context.variables_init_code = combine_string_literals(generate_init_statements(format_expression, input_variables_map, join_variables_map), string_literals)
+    query_context.variables_init_code = generate_init_statements(format_expression, input_variables_map, join_variables_map) # Generated from the variable maps: contains no string literal placeholders to put back
 
 
     if WHERE in rb_actions:
